@@ -21,6 +21,26 @@ PROPS = {
         "for all real poses/measurements/offsets. Translator validated against the real edge objects every run.",
         level_note="Trusted: Lean kernel, Mathlib analysis, py2lean translator (validated at Float every run). Real arithmetic; float rounding of Jacobian entries not covered.",
     ),
+    "C02": dict(
+        modules=["GraphSlam.Props.C02"],
+        theorem_files=["GraphSlam/Props/C02/*.lean"],
+        scan_files=["GraphSlam/Real/*.lean", "GraphSlam/Core/*.lean", "GraphSlam/Model/Chi2.lean", "GraphSlam/Props/C09/*.lean"],
+        corr=[
+            ("harness.entry", "layer_a", dict(only=["Edge", "BaseEdge", "Pose", "Util"], quick=25, thorough=400)),
+            ("harness.entry", "graph_chi2", dict(quick=60, thorough=2000)),
+        ],
+        search=("search.entry", "c02"),
+        replay=("search.entry", "replay_generic"),
+        rule="(1) translator validation of calc_error_* and BaseEdge.calc_chi2 at Float vs real edges; (2) per random graph (2d/3d/r2/r3/mixed worlds, multi-edges, both vertex orders, "
+        "custom edges, cond(Omega) up to 1e8): every edge chi2 vs generated calc_chi2 on the implementation's own error vector, and Graph.calc_chi2() bit-equal to Model.graphChi2 "
+        "(Python sum from 0) of the implementation's edge values; non-trivial = one edge",
+        assumptions=["real arithmetic", "SE(3) statements: unit quaternions for vertices and measurements", "positive (semi-)definiteness stated as the quadratic-form inequality"],
+        technique="Lean 4 proof: group-law rewriting (C09) of the generated error definitions, quadratic-form algebra, list induction for the graph sum",
+        level_text="Theorems: calc_error of odometry edges is the compact form of (p0^-1 (+) p1)^-1 (+) z (matrix form proved for SE(3)); landmark error is ((p0 (+) off)^-1 . l) - z; "
+        "calc_chi2 = e^T Omega e; graph chi2 (model of graph.py:364) = sum of edge chi2; chi2>=0 for PSD Omega, =0 iff e=0 for PD Omega, linear in Omega; "
+        "error = 0 iff measurement agrees (SE(3): equal translation and q_z = +-q_delta; SE(2): equal position, angle congruent mod 2pi).",
+        level_note="Trusted: Lean kernel, Mathlib, translator (validated every run), chi2 harness (bit-exact comparison of the sum). Graph.calc_chi2 is a hand model (one line) tied by correspondence.",
+    ),
     "C09": dict(
         modules=["GraphSlam.Props.C09"],
         theorem_files=["GraphSlam/Props/C09/*.lean", "GraphSlam/Props/C10/SE3Boxplus.lean"],
